@@ -18,6 +18,10 @@ KINDS_ACL = {
     "bad": "permit tcp any any eq", "garbage": "foo bar", "badace": "permit ip 10.0.0.0 any", "digits": "10 20 permit ip any any",
     "descr-x": "descriptionless deny ip any any", "ignored": "ignored-by-mistake permit tcp any any eq 22", "stat-x": "statistics-x per-entry",
     "description-only": "description", "permitx": "permitted tcp any any", "remarkx": "remarks hello",
+    # lines that look like comments are body lines like any other (not entries: to be reported); long lines are valid lines
+    "bang": "!", "bangtext": "! allow the monitoring hosts", "bangace": "!permit ip any any",
+    "long-ace": "permit tcp host 192.168.100.100 range 10000 20000 host 192.168.200.200 range 30000 40000 ack fin psh rst syn urg log",
+    "long-remark": "remark " + "change 4711 approved by the network board on 2024-01-31, see ticket NET-000123 for the complete story".ljust(100, "."),
 }
 KINDS_AG = {
     "ios": {"host": "host 10.0.0.1", "subnet": "10.0.0.0 255.255.255.0", "seq": "10 host 10.0.0.2", "desc": "description members", "bad": "foo bar",
@@ -150,7 +154,7 @@ def check_acl(arg):
     pos = 0
     for k, l in zip(kinds, lines):
         norm = " ".join(l.split())
-        valid = k in ("ace", "ace2", "remark", "seqremark")
+        valid = k in ("ace", "ace2", "remark", "seqremark", "long-ace", "long-remark")
         ignorable = l.startswith(("statistics ", "description ", "ignore "))
         represented = pos < len(items) and _same(items[pos], norm, platform)
         if represented:
